@@ -23,5 +23,10 @@ theorem body_standardRenderer_listen : Tea.Gen.fact_body_standardRenderer_listen
 theorem body_standardRenderer_start : Tea.Gen.fact_body_standardRenderer_start = Tea.Doc.fact_body_standardRenderer_start := rfl
 theorem body_standardRenderer_halt : Tea.Gen.fact_body_standardRenderer_halt = Tea.Doc.fact_body_standardRenderer_halt := rfl
 theorem locks : Tea.Gen.fact_locks = Tea.Doc.fact_locks := rfl
+theorem body_standardRenderer_execute : Tea.Gen.fact_body_standardRenderer_execute = Tea.Doc.fact_body_standardRenderer_execute := rfl
+theorem body_standardRenderer_lastLinesRendered : Tea.Gen.fact_body_standardRenderer_lastLinesRendered = Tea.Doc.fact_body_standardRenderer_lastLinesRendered := rfl
+theorem body_standardRenderer_setWindowTitle : Tea.Gen.fact_body_standardRenderer_setWindowTitle = Tea.Doc.fact_body_standardRenderer_setWindowTitle := rfl
+theorem body_WithANSICompressor : Tea.Gen.fact_body_WithANSICompressor = Tea.Doc.fact_body_WithANSICompressor := rfl
+theorem body_WithOutput : Tea.Gen.fact_body_WithOutput = Tea.Doc.fact_body_WithOutput := rfl
 
 end Tea.Props.Bridge.C19
